@@ -786,7 +786,7 @@ impl<'a> Stepper<'a> {
             Some(Step::Stopped) => {
                 self.emit("p.stop", "ok=1");
                 // the closer now goes on to policy.close(): serve the policy worker's stop
-                let stopped = self.rig.worker.step_stop(Duration::from_millis(ms.max(300)));
+                let stopped = self.rig.worker.step_stop(Duration::from_millis(ms.max(10_000)));
                 // the closer sets the policy's closed flag right after the rendezvous: let it finish
                 for b in self.blocked.iter().filter(|b| b.kind == "close") {
                     settled(b, 25);
